@@ -160,6 +160,12 @@ def cases(tier, seed):
     for cfg in (("metro",) if tier == "quick" else ("metro", "blake3_tr", "metro_head")):
         for h in itertools.product(sets, repeat=3):
             out.append({"kind": "twofs", "cfg": cfg, "runs": list(h)})
+    # initial modification times on whole seconds (even ones: the 2 s grid of FAT), later edits 1 ms ... 1999 ms after
+    # them - inside the same second / the same two seconds - and edits that land ON a whole second after a fine time
+    for grid, step in ((2000, 1), (2000, 1250), (2000, 1999), (1000, 1), (1000, 999), (2000, 2000)):
+        for e1 in (("set", "F2", "V1"), ("set", "F3", "V0"), ("set_older", "F2", "V1")):
+            for e2 in (("set", "F3", "V0"), ("set", "F2", "V2"), ("small", "s2")):
+                out.append({"history": [[list(e1), "metro"], [list(e2), "metro"]], "kills": False, "clock": [grid, step]})
     return out
 
 
@@ -175,12 +181,18 @@ class World:
         self.first_mtime = {}            # name -> mtime (ns) the file had when the cache was first filled
         self.paths = {}
         self.reuse = 0
+        self.step = 10                   # ms between two edits
+        self.initial_on = 0              # ms grid of the initial files' mtimes (0: the ordinary 10 ms steps)
 
     def p(self, name):
         return self.sc.path("r/" + name)
 
     def tick(self, path):
-        self.clock += 10
+        if self.initial_on:
+            # initial files: modification times on whole (even) seconds, as archives, FAT media or `touch -d` give them
+            self.clock = (self.clock // self.initial_on + 1) * self.initial_on
+        else:
+            self.clock += self.step
         os.utime(path, ns=(self.clock * 1_000_000, self.clock * 1_000_000))
 
     def tick_back(self, path):
@@ -401,10 +413,13 @@ def evaluate(case):
         os.makedirs(cache_env["XDG_CACHE_HOME"])
         w = World(sc)
         os.makedirs(sc.path("r"))
+        if case.get("clock"):
+            w.initial_on, w.step = case["clock"]
         for name, v in INITIAL:
             w.write(name, C.content(VARIANTS[v]))
         w.write("s1", b"small file content")
         w.write("s2", b"small file content")
+        w.initial_on = 0
         base_args = ["group", "--min", "0", "-f", "json", "r"]
 
         def run(cfg, cache):
